@@ -127,7 +127,7 @@ HCall(e) ==
 
 (* ---- transmissions ------------------------------------------------------------ *)
 NewRec(f, fd, probe) ==
-  [t |-> f.t, qt |-> f.qt, api |-> IF f.t \in DOMAIN toks THEN toks[f.t] ELSE "query", probe |-> probe,
+  [t |-> f.t, qt |-> f.qt, qc |-> f.qc, api |-> IF f.t \in DOMAIN toks THEN toks[f.t] ELSE "query", probe |-> probe,
    st |-> "tosend", try |-> (IF ~probe /\ f.t \in DOMAIN newtry THEN newtry[f.t] ELSE 0), ntx |-> 0, to |-> 0, fd |-> 0, srv |-> 0, sentAt |-> 0, dlo |-> 0, dhi |-> 0,
    tcp |-> (cfg.usevc = 1), edns |-> (f.edns = 1), reqsrv |-> 0, qsrv |-> 0, noretry |-> probe,
    err |-> (IF ~probe /\ f.t \in DOMAIN newtry /\ newtry[f.t] > 0 THEN "ECONNREFUSED" ELSE ""), endst |-> "", endrc |-> -1,
@@ -224,7 +224,7 @@ HSend(e) ==
 
 (* ---- packets read --------------------------------------------------------------- *)
 SameQuestion(rec, p) ==
-  /\ p.qt = rec.qt /\ p.qc = 1
+  /\ p.qt = rec.qt /\ p.qc = rec.qc
   /\ IF cfg.dns0x20 = 1 /\ ~rec.tcp THEN p.name = rec.name ELSE p.lname = rec.lname
 
 ConnFailure(fd, err) ==
